@@ -132,6 +132,7 @@ class _DulFactory(object):
 
     def __call__(self, store_in_file, get_file_cb, dul_socket=None, max_pdu_length=65536):
         d = ScriptedDul(self.replies)
+        d.max_pdu_length = max_pdu_length
         d.store_in_file = store_in_file
         self.made.append(d)
         return d
@@ -228,6 +229,7 @@ def bare_requester(ae, max_len, remote, replies):
     r = asceprovider.AssociationRequester.__new__(asceprovider.AssociationRequester)
     r.ae = ae
     r.dul = ScriptedDul(replies)
+    r.dul.max_pdu_length = max_len
     r.association_established = False
     r.max_pdu_length = max_len
     r.accepted_contexts = {}
